@@ -662,6 +662,7 @@ func (p *Parser) parseInfixExpression(left ast.Expression) ast.Expression {
 
 	// hack
 	if expression.Operator == "." {
+
 		if expression.Right != nil && expression.Right.String() != "" {
 			name := expression.Right.String()
 			expression.Right = &ast.StringLiteral{Token: token.Token{Type: token.STRING, Literal: name}, Value: name}
@@ -680,6 +681,14 @@ func (p *Parser) parseInfixExpression(left ast.Expression) ast.Expression {
 
 // parsePostfixExpression parses a postfix-based expression.
 func (p *Parser) parsePostfixExpression() ast.Expression {
+
+	// The thing to change is the variable named just before.
+	if p.prevToken.Type != token.IDENT {
+		msg := fmt.Sprintf("%s must follow the name of a variable, not %s, around %s", p.curToken.Literal, p.prevToken.Literal, p.curToken.Position())
+		p.errors = append(p.errors, msg)
+		return nil
+	}
+
 	expression := &ast.PostfixExpression{
 		Token:    p.prevToken,
 		Operator: p.curToken.Literal,
